@@ -1,0 +1,141 @@
+//go:build verif
+
+package gkvlite
+
+// Introspection and scheduling hooks for the verification harness in /verif.
+// Compiled only with the "verif" build tag; nothing here changes behaviour.
+
+import "unsafe"
+
+// VerifYield, when set, is called at the named scheduling points.
+var VerifYield func(point string)
+
+func verifYield(point string) {
+	if f := VerifYield; f != nil {
+		f(point)
+	}
+}
+
+// VerifResetFreeLists empties the package-global free lists and statistics
+// so that one generated case cannot influence the next.
+func VerifResetFreeLists() {
+	withAllocLocks(func() {
+		freeNodes = nil
+		freeNodeLocs = nil
+		freeRootNodeLocs = nil
+		allocStats = AllocStats{}
+	})
+}
+
+// VerifAllocStats returns the package-global allocation statistics.
+func VerifAllocStats() (res AllocStats) {
+	withAllocLocks(func() { res = allocStats })
+	return res
+}
+
+// VerifFreeNodes returns the set of nodes currently on the node free list.
+// cyclic is true if the list loops back on itself.
+func VerifFreeNodes() (set map[unsafe.Pointer]bool, cyclic bool) {
+	set = map[unsafe.Pointer]bool{}
+	freeNodeLock.Lock()
+	defer freeNodeLock.Unlock()
+	for n := freeNodes; n != nil; n = n.next {
+		p := unsafe.Pointer(n)
+		if set[p] {
+			return set, true
+		}
+		set[p] = true
+	}
+	return set, false
+}
+
+// VerifNode describes one cached tree node.
+type VerifNode struct {
+	Ptr      unsafe.Pointer
+	Path     string // "" for the root, then 'L' / 'R' per step down.
+	NumNodes uint64
+	NumBytes uint64
+	Marked   bool // reclaim mark (or free-list link) present
+
+	NodeOff int64 // persisted location of this node (0,0 if dirty)
+	NodeLen uint32
+
+	Item    *Item // nil if evicted / not loaded
+	ItemOff int64
+	ItemLen uint32
+
+	LeftEmpty, RightEmpty   bool
+	LeftCached, RightCached bool
+	LeftOff, RightOff       int64
+	LeftLen, RightLen       uint32
+}
+
+func verifLoc(p *ploc) (int64, uint32) {
+	if p == nil {
+		return 0, 0
+	}
+	return p.Offset, p.Length
+}
+
+// VerifWalk calls fn for every node of the collection's current version that
+// is cached in memory, in pre-order.  It never loads anything from the file
+// and takes no reference.  limit bounds the number of nodes visited (a
+// corrupted, cyclic tree would otherwise never end); it returns false if the
+// limit was hit.
+func (t *Collection) VerifWalk(limit int, fn func(VerifNode)) bool {
+	t.rootLock.Lock()
+	r := t.root
+	t.rootLock.Unlock()
+	if r == nil || r.root == nil {
+		return true
+	}
+	cnt := 0
+	var rec func(nloc *nodeLoc, path string) bool
+	rec = func(nloc *nodeLoc, path string) bool {
+		if nloc.isEmpty() {
+			return true
+		}
+		n := nloc.node
+		if n == nil {
+			return true
+		}
+		cnt++
+		if cnt > limit {
+			return false
+		}
+		v := VerifNode{
+			Ptr: unsafe.Pointer(n), Path: path,
+			NumNodes: n.numNodes, NumBytes: n.numBytes,
+			Marked: n.next != nil,
+			Item:   n.item.item,
+		}
+		v.NodeOff, v.NodeLen = verifLoc(nloc.loc)
+		v.ItemOff, v.ItemLen = verifLoc(n.item.loc)
+		v.LeftEmpty, v.RightEmpty = n.left.isEmpty(), n.right.isEmpty()
+		v.LeftCached, v.RightCached = n.left.node != nil, n.right.node != nil
+		v.LeftOff, v.LeftLen = verifLoc(n.left.loc)
+		v.RightOff, v.RightLen = verifLoc(n.right.loc)
+		fn(v)
+		if !rec(&n.left, path+"L") {
+			return false
+		}
+		return rec(&n.right, path+"R")
+	}
+	return rec(r.root, "")
+}
+
+// VerifRootRefs returns the reference count of the collection's current
+// version, or -1 if the collection is closed.
+func (t *Collection) VerifRootRefs() int64 {
+	t.rootLock.Lock()
+	defer t.rootLock.Unlock()
+	if t.root == nil {
+		return -1
+	}
+	return t.root.refs
+}
+
+// VerifSize returns the store's logical file size (next append offset).
+func (s *Store) VerifSize() int64 {
+	return s.getSize()
+}
